@@ -55,6 +55,7 @@ struct LogCollect {
     thr: u8,
     prefixes: Vec<String>,
     next: AtomicU64,
+    always: bool,
 }
 impl LogCollect {
     fn accept(&self, level: u8, target: &str) -> bool {
@@ -72,7 +73,11 @@ impl tracing_core::field::Visit for MsgVisitor {
     }
 }
 impl Collect for LogCollect {
-    fn register_callsite(&self, _m: &'static Metadata<'static>) -> Interest {
+    fn register_callsite(&self, m: &'static Metadata<'static>) -> Interest {
+        if self.always {
+            // a collector with static answers: accepted callsites are cached as `always`
+            return if self.accept(sites::level_num(m.level()), m.target()) { Interest::always() } else { Interest::never() };
+        }
         Interest::sometimes()
     }
     fn enabled(&self, m: &Metadata<'_>) -> bool {
@@ -179,7 +184,7 @@ fn exec_step(gi: usize, t: usize, s: &Value, guards: &mut Vec<dispatch::DefaultG
             let prefixes: Vec<String> = s["prefixes"].as_array().cloned().unwrap_or_default().iter().filter_map(|x| x.as_str().map(|s| s.to_string())).collect();
             let free = COLLECTORS.lock().unwrap().get(k as usize).map_or(false, |c| c.is_none());
             if free {
-                let d = Dispatch::new(LogCollect { k: k as usize, thr, prefixes: prefixes.clone(), next: AtomicU64::new(1) });
+                let d = Dispatch::new(LogCollect { k: k as usize, thr, prefixes: prefixes.clone(), next: AtomicU64::new(1), always: s["always"].as_bool().unwrap_or(false) });
                 COLLECTORS.lock().unwrap()[k as usize] = Some((d, thr, prefixes));
             } else {
                 h.applied = false;
@@ -338,8 +343,14 @@ impl Engine for LogEngine {
             let install_at = rng.below(3);
             let first_collector_at = rng.range(2, n + 2);
             let failed_tracer_at = if rng.chance(1, 3) { rng.range(1, n) } else { u64::MAX };
+            // a collector that is constructed (and so takes part in callsite interest) but never installed: the macros
+            // then take their enabled branch towards the no-op collector, and must log exactly the same
+            let held_at = if rng.chance(1, 3) { rng.below(first_collector_at) } else { u64::MAX };
             for i in 0..n {
                 let t = rng.below(nthreads);
+                if i == held_at {
+                    steps.push(json!({"t": t, "op": "new", "k": 1, "thr": 5, "prefixes": [], "always": rng.chance(2, 3)}));
+                }
                 if i == install_at {
                     steps.push(json!({"t": t, "op": "install_logger", "max": rng.range(1, 5)}));
                 }
